@@ -163,11 +163,14 @@ _PRIO_ASSUME = [
 def _v2p(harness, q, t, **kw):
     return dict(mod="v2", pkg="priority", overlay="harness/v2/priority", harness=harness, params=dict(quick=q, thorough=t), **kw)
 
-_G_STEP = _v2p("^VerifC01_step_(calcTactic|recalcTactic|io|feedback)$", dict(n=[1, 2, 3], J=[2]), dict(n=[1, 2, 3, 4], J=[3]))
+# the two pure bookkeeping steps have no environment hooks: their counterexamples are also replayed natively (R2)
+_G_STEP_A = _v2p("^VerifC01_step_(calcTactic|recalcTactic)$", dict(n=[1, 2, 3], J=[2]), dict(n=[1, 2, 3, 4], J=[3]), native=True)
+_G_STEP_B = _v2p("^VerifC01_step_(io|feedback)$", dict(n=[1, 2, 3], J=[2]), dict(n=[1, 2, 3, 4], J=[3]))
 _G_PRIOR = _v2p("^VerifC01_step_prioritize$", dict(n=[1, 2], J=[1]), dict(n=[1, 2], J=[2]))
 _G_LOOP1 = _v2p("^VerifC07_(loop|main)$", dict(n=[1], J=[1], B=[1], K=[1]), dict(n=[1], J=[2], B=[2], K=[2]))
 _G_PROMPT = _v2p("^VerifC07_prompt$", dict(n=[1, 2, 3], B=[2]), dict(n=[1, 2, 3, 4], B=[3]))
-_G_NEW = _v2p("^VerifC15_(new|safeDivide)$", dict(n=[1, 2, 3]), dict(n=[1, 2, 3, 4]))
+_G_NEW = _v2p("^VerifC15_new$", dict(n=[1, 2, 3]), dict(n=[1, 2, 3, 4]))
+_G_SAFEDIV = _v2p("^VerifC15_safeDivide$", dict(n=[1, 2, 3]), dict(n=[1, 2, 3, 4]), native=True)
 _G_ROUND = _v2p("^Verif(C05_saturated_round|C06_progress|C06_sole_priority)$", dict(n=[1, 2], Hmax=[3]), dict(n=[1, 2, 3], Hmax=[4]))
 _G_ROUND2 = _v2p("^VerifC06_progress_two_rounds$", dict(n=[2, 3], Hmax=[3]), dict(n=[2, 3, 4], Hmax=[4]))
 _G_RUN = _v2p("^VerifC02_run$", dict(n=[1, 2], H=[1, 2], J=[1]), dict(n=[1, 2], H=[1, 2, 3], J=[2]), maxpaths=400000)
@@ -186,10 +189,10 @@ def _prio(pid, text, groups, **kw):
 _prio("C01", "In-flight <= HandlersQuantity: the capacity monitor (ghost handed-out minus released, +1 <= H) runs at the instant of every output write on every path of every real function of the round "
       "(calcTactic, recalcTactic, io, iou, prioritize, feedback readers), each started from an arbitrary state satisfying the invariant and shown to preserve it (inductive step: histories of any length), "
       "plus loop()/main() runs with releases at every point, runs from New, the constructor establishing the invariant, and the simple handler's receive->Handle->Release order.",
-      [_G_STEP, _G_PRIOR, _G_LOOP1, _G_NEW, _G_RUN, _G_SIMPLE])
+      [_G_STEP_A, _G_STEP_B, _G_PRIOR, _G_LOOP1, _G_NEW, _G_RUN, _G_SIMPLE])
 _prio("C02", "Exactly-once, correctly tagged, FIFO per priority: pending-item monitor (an input read is followed by the output write of exactly that item with the priority its channel is registered under, "
       "before any other read) on all step and loop paths; completeness and per-priority order on bounded runs from New to termination; Handle exactly once per item in the simple handler.",
-      [_G_STEP, _G_PRIOR, _G_LOOP1, _G_RUN, _G_SIMPLE])
+      [_G_STEP_A, _G_STEP_B, _G_PRIOR, _G_LOOP1, _G_RUN, _G_SIMPLE])
 _prio("C05", "Saturation: from any state with actual[p] <= strategic[p] (shares as the constructor leaves them) and every input never empty, after any batch of releases one real base() round ends with "
       "actual[p] == strategic[p] for every p, every hand-out keeps actual[p] <= strategic[p], and waits only when all handlers are busy; the constructor sorts priorities high->low before dividing (any Inputs map order).",
       [_G_ROUND, _G_NEW])
@@ -203,7 +206,7 @@ _prio("C07", "Termination exactly when drained and released: real loop()/main() 
 _prio("C15", "Divider contract and fail-safe faults: the stub divider ASSERTS its arguments (non-nil distribution, dividend <= H, list of configured priorities strictly descending) at every call on every path; "
       "a fault (non-zero added total != dividend) injected at any call of a round or of the constructor yields ErrDividerBad from safeDivide/New/loop, no hand-out afterwards, capacity monitor still holds, "
       "main reports exactly that value and closes; New rejects zero shares (Fair exact, Rate for any float values, arbitrary sum-preserving divider).",
-      [_G_NEW, _G_STEP, _G_LOOP1])
+      [_G_NEW, _G_SAFEDIV, _G_STEP_A, _G_STEP_B, _G_LOOP1])
 
 # ---- v1 ---------------------------------------------------------------------------------------------------
 
@@ -229,7 +232,8 @@ PROPS["C16"] = dict(
     ],
 )
 
-_V1_STEP = _v1p("^VerifC01_step_(calcTactic|recalcTactic|io|feedback)$", dict(n=[1, 2, 3], J=[2]), dict(n=[1, 2, 3, 4], J=[3]))
+_V1_STEP_A = _v1p("^VerifC01_step_(calcTactic|recalcTactic)$", dict(n=[1, 2, 3], J=[2]), dict(n=[1, 2, 3, 4], J=[3]), native=True)
+_V1_STEP_B = _v1p("^VerifC01_step_(io|feedback)$", dict(n=[1, 2, 3], J=[2]), dict(n=[1, 2, 3, 4], J=[3]))
 _V1_PRIOR = _v1p("^VerifC01_step_prioritize$", dict(n=[1, 2], J=[1]), dict(n=[1, 2], J=[2]))
 _V1_MAIN = _v1p("^VerifC07_v1_main_graceful$", dict(n=[1], J=[1], B=[1], K=[1]), dict(n=[1], J=[2], B=[2], K=[2]))
 _V1_PROMPT = _v1p("^VerifC07_v1_prompt$", dict(n=[1, 2, 3], B=[2]), dict(n=[1, 2, 3], B=[3]))
@@ -240,15 +244,15 @@ _SCZ6 = [dict(msg="an item is delivered without any release", file="replay/v1/pr
 _V1_Z7 = _v1p("^VerifC07_v1_zero_share$", dict(n=[3]), dict(n=[3]), scenarios=_SCZ7)
 _V1_Z6 = _v1p("^VerifC06_v1_zero_share$", dict(n=[3], Hmax=[3]), dict(n=[3], Hmax=[4]), scenarios=_SCZ6)
 _V1_SIMPLE = _v1p("^Verif(C16_v1simple_main|C01_v1simple_handler)$", dict(H=[1, 2], K=[2]), dict(H=[1, 2, 3], K=[3]))
-_V1_C17 = [_v1p("^VerifC17_step_", dict(n=[1, 2, 3]), dict(n=[1, 2, 3, 4])),
+_V1_C17 = [_v1p("^VerifC17_step_", dict(n=[1, 2, 3]), dict(n=[1, 2, 3, 4]), native=True),
            _v1p("^VerifC17_loop_commands$", dict(n=[1], C=[2], J=[1], B=[1], K=[1]), dict(n=[1, 2], C=[2], J=[1], B=[1], K=[1]), maxtime=dict(quick=0, thorough=900))]
 
-PROPS["C01"]["groups"] += [_V1_STEP, _V1_PRIOR, _V1_MAIN, _V1_NEW, _V1_SIMPLE] + _V1_C17
-PROPS["C02"]["groups"] += [_V1_STEP, _V1_PRIOR, _V1_MAIN, _V1_SIMPLE] + _V1_C17
+PROPS["C01"]["groups"] += [_V1_STEP_A, _V1_STEP_B, _V1_PRIOR, _V1_MAIN, _V1_NEW, _V1_SIMPLE] + _V1_C17
+PROPS["C02"]["groups"] += [_V1_STEP_A, _V1_STEP_B, _V1_PRIOR, _V1_MAIN, _V1_SIMPLE] + _V1_C17
 PROPS["C05"]["groups"] += [_V1_ROUND, _V1_NEW]
 PROPS["C06"]["groups"] += [_V1_ROUND, _v1p("^VerifC06_progress_two_rounds$", dict(n=[2, 3], Hmax=[3]), dict(n=[2, 3, 4], Hmax=[4])), _V1_MAIN, _V1_Z6, _v1p("^VerifC01_step_calcTactic$", dict(n=[1, 2, 3]), dict(n=[1, 2, 3, 4]))]
 PROPS["C07"]["groups"] += [_V1_MAIN, _V1_PROMPT, _V1_Z7, _V1_SIMPLE, _v1p("^VerifC01_step_io$", dict(n=[1, 2, 3], J=[2]), dict(n=[1, 2, 3, 4], J=[3]))]
-PROPS["C15"]["groups"] += [_V1_STEP, _V1_MAIN, _V1_NEW]
+PROPS["C15"]["groups"] += [_V1_STEP_A, _V1_STEP_B, _V1_MAIN, _V1_NEW]
 PROPS["C16"]["groups"] += [_V1_SIMPLE]
 for _p in ("C01", "C02", "C05", "C06", "C07", "C15"):
     PROPS[_p]["level_note"] += " v1: ported harness (same obligations), plus removed priorities with items in flight (foreign key in actual); v1 progress/termination obligations assume every share >= 1 (documented precondition), the zero-share case is a recorded known finding."
